@@ -65,7 +65,7 @@ fn build_suff(c: &SuffCase, crit_total: usize) -> (Vec<wire::Rec>, Vec<u8>, usiz
     let nlen = gen::idx(c.name_share, crit_total + 1);
     let vlen = crit_total - nlen;
     // ASCII name so that the lossy conversion is the identity
-    let name: Vec<u8> = (0..nlen).map(|i| b'a' + ((i as u32 * 7 + c.seed) % 26) as u8).collect();
+    let name: Vec<u8> = (0..nlen).map(|i| b'a' + ((i as u32).wrapping_mul(7).wrapping_add(c.seed) % 26) as u8).collect();
     let crit = PairSpec { name: Blob::lit(&name), value: Blob::Gen { len: vlen as u32, seed: c.seed }, long_n: c.long_n, long_v: c.long_v };
     let mut pairs = c.before.clone();
     pairs.push(crit);
@@ -265,16 +265,16 @@ pub fn property() -> Property {
             prop_sub(
                 "sufficiency",
                 "buffer sizes 13..70000 (dense below 80, all residues mod 8) with a critical pair of exactly buffer_size-13-delta bytes (delta in {0,1,2,5}; name/value split anywhere; one- and four-byte length forms) at the start/middle/end of the Params stream, cuts aimed around it (inside its length prefix, across 2-3 records), ordinary pairs and GetValues/unknown noise obeying the bound; chunkings all-at-once (fills the buffer exactly), 1-byte, generated; never StuckOnInput and the result equals the model; non-trivial = delta <= 2 and >= 2 feeding calls",
-                4_000,
-                250_000,
+                60_000,
+                1_500_000,
                 |_| suff_strategy(),
                 test_suff,
             ),
             prop_sub(
                 "converse",
                 "pairs sized around the tight limit (effective length - 8 + [-12..12], some far larger): an unfinished parser always offers input space (checked after every call), StuckOnInput only appears with a completely full buffer and only for pairs beyond the documented bound, otherwise the result equals the model; non-trivial = pair beyond the tight limit or StuckOnInput reported",
-                3_000,
-                150_000,
+                60_000,
+                1_500_000,
                 |_| over_strategy(),
                 test_over,
             ),
